@@ -261,6 +261,8 @@ def gen_cases(args, verdict):
             case["memory"] = memory
             case["as_list"] = rng.random() < 0.7
             case["noise"] = rng.sample(["lost+found", "image1", "x.qcow2", "y.state.tmp"], rng.randint(0, 2))
+            # what transfers leave next to memory files: lock files, also of states whose memory file is gone
+            case["noise"] += [t + ".state.lock" for t in universe if rng.random() < 0.4]
         yield case
 
 
